@@ -1,6 +1,10 @@
 import CJ.Drv.Loop
-/-! Driver for C02 (stub until the models are written). -/
+import CJ.Drv.Registry
+import CJ.Drv.Wrap
+/-! Driver for C02: registry histories followed by offers to the classifier models. -/
 open CJ.Drv
 
 def main : IO Unit := runDriver fun
+  | "registry" :: args => Registry.handle args
+  | "regwrap" :: args => Wrap.handle args
   | _ => none
